@@ -32,6 +32,8 @@ def trait_src(d):
             lines.append("        /// Documentation does not cross the boundary.")
         if m["skip"]:
             lines.append("        #[skip_func]")
+        if m.get("ir"):
+            lines.append("        #[int_result]")
         lines.append("        fn %s(%s%s) -> %s%s" % (m["name"], RECV[m["recv"]], args, ty(m["ret"]), body))
     lines.append("    }")
     # LayoutCheck!Reach "via_return": a root whose method returns an object of the (edited) trait
